@@ -162,8 +162,7 @@ func (e *Enc) indexAddr(fr *Frame, x *ssa.IndexAddr) {
 		if pv.A.I != nil {
 			panic("nested array index")
 		}
-		el := leavesOf(at.Elem())
-		if _, isStruct := under(at.Elem()).(*types.Struct); isStruct || !(len(el) == 1 && el[0].path == "") {
+		if _, isStruct := under(at.Elem()).(*types.Struct); isStruct {
 			// array of composite elements: each element is an object at elemaddr(array, i)
 			base, _ := e.structAddr(pv.A)
 			e.setVal(fr, x, &PtrV{A: Addr{Kind: ARef, Base: e.elemAddr(base, idx)}, Elem: at.Elem()})
